@@ -24,15 +24,16 @@ static int g_migrated, g_blocked;
 static int g_unlocked;     /* 1: signal / broadcast are issued after the mutex has been released (lock; change predicate; unlock; signal) */
 static long g_unlocked_notifies;
 
-static void m_lock(void) { myth_mutex_lock(&g_m); wit_enter(&g_w, "lock"); }
-static void m_unlock(void) { wit_leave(&g_w, "unlock"); myth_mutex_unlock(&g_m); }
+#define RC0(call) do { int rc_ = (call); if (rc_ != 0) mt_fail("%s returned %d (documented: zero if it succeeds)", #call, rc_); } while (0)
+static void m_lock(void) { RC0(myth_mutex_lock(&g_m)); wit_enter(&g_w, "lock"); }
+static void m_unlock(void) { wit_leave(&g_w, "unlock"); RC0(myth_mutex_unlock(&g_m)); }
 
 static void cv_wait(cvm_t * c) {
   c->sleeping++;
   wit_leave(&g_w, "cond_wait(enter)");
   int w0 = myth_get_worker_num();
   unsigned long b0 = HIT(MVP_BLOCK_CB_B);
-  myth_cond_wait(&c->cv, &g_m);
+  RC0(myth_cond_wait(&c->cv, &g_m));
   wit_enter(&g_w, "cond_wait(return)");
   if (myth_get_worker_num() != w0) g_migrated++;
   if (HIT(MVP_BLOCK_CB_B) != b0) g_blocked++;
@@ -44,18 +45,18 @@ static void cv_wait(cvm_t * c) {
 }
 static void cv_signal(cvm_t * c) {
   if (c->sleeping > 0) { c->sleeping--; c->credits++; } else c->nowaiter_signals++;
-  myth_cond_signal(&c->cv);
+  RC0(myth_cond_signal(&c->cv));
   mv_progress();
 }
 /* the unlocked idiom: the caller has already released the mutex; the set of waiters is not stable at
    this instant, so no wake credit is computed -- a lost wake-up shows as a hang, a duplicate one as
    a surplus return that the predicate loop absorbs */
-static void cv_signal_unlocked(cvm_t * c) { g_unlocked_notifies++; myth_cond_signal(&c->cv); mv_progress(); }
-static void cv_broadcast_unlocked(cvm_t * c) { g_unlocked_notifies++; myth_cond_broadcast(&c->cv); mv_progress(); }
+static void cv_signal_unlocked(cvm_t * c) { g_unlocked_notifies++; RC0(myth_cond_signal(&c->cv)); mv_progress(); }
+static void cv_broadcast_unlocked(cvm_t * c) { g_unlocked_notifies++; RC0(myth_cond_broadcast(&c->cv)); mv_progress(); }
 static void cv_broadcast(cvm_t * c) {
   if (c->sleeping == 0) c->nowaiter_signals++;
   c->credits += c->sleeping; c->sleeping = 0;
-  myth_cond_broadcast(&c->cv);
+  RC0(myth_cond_broadcast(&c->cv));
   mv_progress();
 }
 
